@@ -154,7 +154,9 @@ Narrow(a, v) ==
   IF v # Absent /\ a.loc = "message" /\ a.kind \in {"int", "uint"} /\ a.w = "n" /\ v.s = "big" /\ ~IsAltY(a, v) /\ Dev("int.narrowed_to_32_bits")
   THEN [v EXCEPT !.s = "plain", !.n = 1]      \* 2^53 + 1 modulo 2^32
   ELSE v
-ClientWire(a, v) == IF v = Absent THEN [loc |-> "none", v |-> Absent] ELSE [loc |-> a.loc, v |-> Narrow(a, v)]
+\* (metadata, headers and trailers carry one entry per list element: an empty list leaves nothing to carry)
+ClientWire(a, v) == IF v = Absent \/ (a.loc # "message" /\ a.nest = "elem" /\ v.cn = 0) THEN [loc |-> "none", v |-> Absent]
+                    ELSE [loc |-> a.loc, v |-> Narrow(a, v)]
 \* what the other side reads back
 ReadBack(a, w) == IF w.loc = "none" THEN (IF a.mode = "default" THEN DefaultOf(a) ELSE Absent) ELSE w.v
 \* validation as the generated code performs it
